@@ -336,12 +336,8 @@ def walk_no_nested(node):
         stack.extend(reversed(list(ast.iter_child_nodes(n))))
 
 
-def inline_locals(fn, expr, depth=6):
-    """Source text of `expr` with every local that has exactly one plain definition `name = <expr>` in `fn` replaced by that expression
-    (recursively). A local with several definitions is rendered as name{def1 | def2}, so a comparison against the expected text fails and the
-    message shows which alternative values reach the use."""
-    def _fresh(e):
-        return ast.parse(src(e), mode="eval").body
+def local_defs(fn):
+    """{local name: [defining expression or None when the value is not a plain expression (unpacking from a call, loop variable, augmented)]}"""
     defs = {}
     for n in walk_no_nested(fn):
         if isinstance(n, ast.Assign):
@@ -359,6 +355,16 @@ def inline_locals(fn, expr, depth=6):
             for e in ast.walk(n.target):
                 if isinstance(e, ast.Name):
                     defs.setdefault(e.id, []).append(None)
+    return defs
+
+
+def inline_locals(fn, expr, depth=6):
+    """Source text of `expr` with every local that has exactly one plain definition `name = <expr>` in `fn` replaced by that expression
+    (recursively). A local with several definitions is rendered as name{def1 | def2}, so a comparison against the expected text fails and the
+    message shows which alternative values reach the use."""
+    def _fresh(e):
+        return ast.parse(src(e), mode="eval").body
+    defs = local_defs(fn)
     pnames = set(params(fn))
 
     class T(ast.NodeTransformer):
